@@ -579,7 +579,10 @@ class EspiritCalib(sp.app.App):
             mps *= xp.conj(mps[0] / xp.abs(mps[0]))
 
             # Crop maps by thresholding eigenvalue
-            max_eig = self.alg.max_eig.T[0]
+            max_eig = self.alg.max_eig
+            if xp.ndim(max_eig) > 0:
+                # (scalar initial estimate when no update was performed)
+                max_eig = max_eig.T[0]
             mps *= max_eig > self.crop
 
         if self.output_eigenvalue:
